@@ -20,25 +20,41 @@ theorem anyMarked_false_of_no_stray (T : MesgTable) (m : Message) (h : hasStrayM
   exact ⟨s, hs, by simp [hcon.1.2, hc]⟩
 
 theorem typedNormalFull_eq (T : MesgTable) (fac : Nat → Field) (o : Options) (m : Message)
-    (h1 : hasForeign T m = false) (h2 : hasStrayMark T m = false) :
+    (h1 : hasForeign T m = false) (h2 : hasStrayMark T m = false) (h3 : hasLostDev T m = false) :
     typedNormalFull T fac o m = typedNormal T fac o m := by
-  unfold typedNormalFull typedNormal
-  congr 1
-  congr 1
-  · apply filterMap_congr'
-    intro s hs
-    cases specVal s (lastStored T m.fields s.num) with
-    | none => rfl
-    | some v =>
-      cases hc : s.canExpand with
-      | true => rfl
-      | false =>
-        simp only [Bool.false_eq_true, ↓reduceIte, anyMarked_false_of_no_stray T m h2 s hs hc]
-  · apply List.filter_congr
-    intro f hf
-    simp only [hasForeign, List.any_eq_false] at h1
-    have := h1 f hf
-    simp [this]
+  have hdev : m.devFields = if T.hasDev = true then m.devFields else [] := by
+    cases hd : T.hasDev with
+    | true => simp
+    | false =>
+      simp only [hasLostDev, hd, Bool.not_false, Bool.true_and, Bool.not_eq_false', List.isEmpty_iff] at h3
+      simp [h3]
+  have hfields : (typedNormalFull T fac o m).fields = (typedNormal T fac o m).fields := by
+    unfold typedNormalFull typedNormal
+    simp only
+    congr 1
+    · apply filterMap_congr'
+      intro s hs
+      cases specVal s (lastStored T m.fields s.num) with
+      | none => rfl
+      | some v =>
+        cases hc : s.canExpand with
+        | true => rfl
+        | false =>
+          simp only [Bool.false_eq_true, ↓reduceIte, anyMarked_false_of_no_stray T m h2 s hs hc]
+    · apply List.filter_congr
+      intro f hf
+      simp only [hasForeign, List.any_eq_false] at h1
+      have := h1 f hf
+      simp [this]
+  have hd' : (typedNormalFull T fac o m).devFields = (typedNormal T fac o m).devFields := by
+    unfold typedNormalFull typedNormal
+    exact hdev
+  have hn : (typedNormalFull T fac o m).num = (typedNormal T fac o m).num := rfl
+  cases hA : typedNormalFull T fac o m
+  cases hB : typedNormal T fac o m
+  rw [hA, hB] at hfields hd' hn
+  simp only at hfields hd' hn
+  rw [hfields, hd', hn]
 
 /-! ### `specVal` is idempotent -/
 
@@ -237,8 +253,7 @@ theorem typedNormal_idem (T : MesgTable) (hw : T.wf = true) (fac : Nat → Field
   have hU : ∀ f ∈ m.fields.filter (fun f => !stored T f), stored T f = false := by
     intro f hfm; simpa using (List.mem_filter.mp hfm).2
   have hnd : nodup (T.slots.map (·.num)) = true := by
-    simp only [MesgTable.wf, Bool.and_eq_true] at hw
-    exact hw.1.2
+    exact wf_nodup T hw
   have hSF := normField_slotFields T hw fac hf o m.fields
   have hlook := lookup_filterMap T T.slots (normField T fac o m.fields) _ hnd hSF hU
   have hfields := typedNormal_fields T fac o m
